@@ -192,6 +192,39 @@ func runC11(c *Ctx) {
 			dig = "NOTVALID"
 			c.Count("documents_not_valid_json_not_compared", 1)
 		}
+		if i%4 == 1 && dig != "NOTVALID" && dig != "PANIC" {
+			// one decoder.Decoder over several concatenated values (every call continues at the
+			// position the previous one reached): the implementations must agree on each value
+			dd := gen.DefaultDoc
+			second := c.Rng(i + 1<<26).Doc(&dd)
+			all := cs.doc + " " + second + "\n" + cs.doc
+			var parts []string
+			c.Guard(i, "decoder.Decoder x3", func() {
+				// (where the position stands after a failed Decode is not specified: the comparison ends there)
+				d := decoder.NewDecoder(all)
+				d1 := newDst(cs)
+				if e := d.Decode(d1.Interface()); e != nil {
+					parts = append(parts, "E1")
+					return
+				}
+				parts = append(parts, gen.Dump(d1.Elem()))
+				var v2 interface{}
+				if e := d.Decode(&v2); e != nil {
+					parts = append(parts, "E2")
+					return
+				}
+				parts = append(parts, gen.Dump(reflect.ValueOf(&v2).Elem()))
+				d3 := newDst(cs)
+				if e := d.Decode(d3.Interface()); e != nil {
+					parts = append(parts, "E3")
+					return
+				}
+				parts = append(parts, gen.Dump(d3.Elem()))
+			})
+			c.Vf("MULTI %q -> %s", trunc(all, 600), trunc(strings.Join(parts, " ; "), 300000))
+			dig += ".M" + h64(strings.Join(parts, "\x00"))
+			c.Count("multi_value_decoder_cases", 1)
+		}
 		c.Digest(i, dig+" "+strings.Join(flags, ","))
 		c.Distinct(gen.HashString(gen.Describe(cs.t)+"|"+cs.cfg.name+"|"+cs.doc), len(cs.doc) >= 2)
 		c.Count("cfg_"+cs.cfg.name, 1)
